@@ -819,6 +819,13 @@ func (w *World) resultOriginIn(facts []Fact, c *ssa.Call, idx int) ssa.Value {
 					}
 				} else if ai.definitelyNonNil(rv) && k.want == "nil" {
 					compatible = false
+				} else {
+					// the return may sit on an edge that decides the value's nil-ness
+					for _, rf := range w.factsAt(ret) {
+						if fv, isNil, ok := nilFact(rf); ok && (fv == rv || w.sameKey(fv, rv)) && isNil != (k.want == "nil") {
+							compatible = false
+						}
+					}
 				}
 			case "true", "false":
 				if cst, isC := rv.(*ssa.Const); isC && cst.Value != nil && isBoolType(cst.Type()) {
@@ -1018,7 +1025,7 @@ func (w *World) realOf(v ssa.Value) ssa.Value {
 func (w *World) originAt(v ssa.Value, at ssa.Instruction) (ssa.Value, []*ssa.Return, *ssa.Call) {
 	v = w.resolveLoad(v)
 	c, idx := callOf(v)
-	if c == nil || w.isSynthetic(c) {
+	if c == nil {
 		return v, nil, nil
 	}
 	h := c.Call.StaticCallee()
@@ -1038,7 +1045,7 @@ func (w *World) originAt(v ssa.Value, at ssa.Instruction) (ssa.Value, []*ssa.Ret
 		if x == nil {
 			continue
 		}
-		if fc, fi := callOf(w.resolveLoad(x)); fc == c {
+		if fc, fi := callOf(w.resolveLoad(x)); fc == c || (fc != nil && w.isSynthetic(c) && w.isSynthetic(fc) && w.key(fc) == w.key(c)) {
 			if fi < 0 {
 				fi = 0
 			}
@@ -1067,6 +1074,13 @@ func (w *World) originAt(v ssa.Value, at ssa.Instruction) (ssa.Value, []*ssa.Ret
 					}
 				} else if ai.definitelyNonNil(rv) && k.want == "nil" {
 					compatible = false
+				} else {
+					// the return may sit on an edge that decides the value's nil-ness
+					for _, rf := range w.factsAt(ret) {
+						if fv, isNil, ok := nilFact(rf); ok && (fv == rv || w.sameKey(fv, rv)) && isNil != (k.want == "nil") {
+							compatible = false
+						}
+					}
 				}
 			case "true", "false":
 				if cst, isC := rv.(*ssa.Const); isC && cst.Value != nil && isBoolType(cst.Type()) {
